@@ -6,6 +6,7 @@ import (
 	"fmt"
 	"strings"
 	"testing"
+	"unicode"
 	"unicode/utf8"
 
 	"github.com/junegunn/fzf/src/algo"
@@ -291,7 +292,11 @@ func TestVerifC10_RangesRandom(t *testing.T) {
 
 // --nth: a term can only match inside the selected fields, and the reported
 // offsets / positions refer to the characters of the full line.
-func propC10NthMatch(t *rapid.T) {
+func propC10NthMatch(t *rapid.T) { nthMatchProp(t, "C10/nth-match", false) }
+
+// nthMatchProp serves C10 (the scope) and C02 (the witness, for every kind of term, when the
+// searched text is a part of the line).
+func nthMatchProp(t *rapid.T, unit string, allKinds bool) {
 	line := c10Line(t)
 	ds := mkDelimSpec(rapid.SampledFrom([]string{"", ",", ":", "[,;]+", "\\t", ";"}).Draw(t, "delim"))
 	fields := oracle.Split(line, ds.o)
@@ -309,6 +314,9 @@ func propC10NthMatch(t *rapid.T) {
 	// field's trailing delimiter is an observed convention, not a documented one)
 	body := string(rapid.SliceOfN(rapid.SampledFrom([]rune("abé漢x1")), 1, 3).Draw(t, "body"))
 	kind := oracle.TermKind(rapid.SampledFrom([]int{0, 0, 1, 2, 3}).Draw(t, "kind"))
+	if allKinds {
+		kind = oracle.TermKind(rapid.IntRange(0, 5).Draw(t, "anyKind"))
+	}
 	fuzzyAlgo := algo.FuzzyMatchV2
 	if rapid.Bool().Draw(t, "v1") {
 		fuzzyAlgo = algo.FuzzyMatchV1
@@ -350,13 +358,30 @@ func propC10NthMatch(t *rapid.T) {
 			expect = true
 		}
 	}
+	// Whether a field's own delimiter stands between the term and the end of the field ("a$" on the
+	// field "a,") is not documented: where that decides, either answer is taken
+	undecided := false
+	if kind == oracle.KindSuffix || kind == oracle.KindEqual {
+		loose := false
+		for _, s := range sels {
+			if oracle.EvalTermOn(oracle.Term{Kind: kind, Body: body}, qo, [][]rune{[]rune(oracle.StripLastDelim(string(s.text), ds.o))}) {
+				loose = true
+			}
+		}
+		undecided = loose != expect
+		expect = expect || loose
+	}
 	runes := []rune(line)
 	nt := len(fields) >= 3 && expect
-	vstat.Case("C10/nth-match", fmt.Sprintf("%q|%s|%v|%s|%v|%v", line, ds.arg, spell, qtext, forward, withPos), nt, "delim="+ds.arg, "kind="+kind.String())
-	if nt && vstat.WantSample("C10/nth-match") {
-		vstat.Sample("C10/nth-match", map[string]interface{}{"line": line, "delimiter": ds.arg, "nth": spell, "query": qtext, "offsets": fmt.Sprint(offsets)})
+	if allKinds {
+		// C02: the searched text does not start at the start of the line
+		nt = expect && len(sels) > 0 && sels[0].off > 0
 	}
-	if (res != nil) != expect {
+	vstat.Case(unit, fmt.Sprintf("%q|%s|%v|%s|%v|%v", line, ds.arg, spell, qtext, forward, withPos), nt, "delim="+ds.arg, "kind="+kind.String())
+	if nt && vstat.WantSample(unit) {
+		vstat.Sample(unit, map[string]interface{}{"line": line, "delimiter": ds.arg, "nth": spell, "query": qtext, "offsets": fmt.Sprint(offsets)})
+	}
+	if (res != nil) != expect && !(undecided && res == nil) {
 		t.Fatalf("line %q delimiter %q --nth %v query %q: matched=%v, but the term %s a witness inside the selected fields %q", line, ds.arg, spell, qtext, res != nil,
 			map[bool]string{true: "has", false: "has no"}[expect], selTexts(fields, ors))
 	}
@@ -381,6 +406,36 @@ func propC10NthMatch(t *rapid.T) {
 		}
 		if !oracle.IsSubsequence(folded[b:e], pt) {
 			t.Fatalf("line %q --nth %v query %q: characters [%d,%d) of the full line (%q) do not contain the term", line, spell, qtext, b, e, string(runes[b:e]))
+		}
+		if kind == oracle.KindPrefix || kind == oracle.KindSuffix || kind == oracle.KindEqual {
+			// the anchor, with the documented trimming of blanks
+			anchored := false
+			for _, s := range sels {
+				lead, trail := 0, 0
+				for lead < len(s.text) && unicode.IsSpace(s.text[lead]) {
+					lead++
+				}
+				for trail < len(s.text)-lead && unicode.IsSpace(s.text[len(s.text)-1-trail]) {
+					trail++
+				}
+				atStart, atEnd := b == s.off+lead, e == s.end-trail
+				if st := []rune(oracle.StripLastDelim(string(s.text), ds.o)); len(st) != len(s.text) {
+					trail = 0
+					for trail < len(st) && unicode.IsSpace(st[len(st)-1-trail]) {
+						trail++
+					}
+					atEnd = atEnd || e == s.off+len(st)-trail
+				}
+				if kind == oracle.KindPrefix && atStart || kind == oracle.KindSuffix && atEnd || kind == oracle.KindEqual && atStart && atEnd {
+					anchored = true
+				}
+			}
+			if !anchored {
+				t.Fatalf("line %q delimiter %q --nth %v query %q: range [%d,%d) is not anchored at the edge of a selected field %q", line, ds.arg, spell, qtext, b, e, selTexts(fields, ors))
+			}
+		}
+		if kind != oracle.KindFuzzy && string(folded[b:e]) != string(pt) {
+			t.Fatalf("line %q delimiter %q --nth %v query %q: characters [%d,%d) of the full line (%q) are not an occurrence of the term", line, ds.arg, spell, qtext, b, e, string(runes[b:e]))
 		}
 	}
 	if withPos && pos != nil {
